@@ -16,7 +16,7 @@ def main():
             for cfg in m.get("configs", ["ref", "asan"]):
                 jobs.append((m, cfg))
     failed = []
-    with cf.ThreadPoolExecutor(max_workers=8) as ex:
+    with cf.ThreadPoolExecutor(max_workers=4) as ex:
         futs = {ex.submit(compile_monitor, m["name"], m["srcs"], cfg, m.get("link", ())): (m["name"], cfg) for m, cfg in jobs}
         for f in cf.as_completed(futs):
             try:
